@@ -86,7 +86,23 @@ mod std_build {
         let entry = t.below(3); // 0 MmapRegion::build 1 builder chain 2 new/from_file conveniences
         let file = if with_file { Some(memfd(flen)) } else { None };
         let dup = file.as_ref().map(|f| f.try_clone().unwrap());
-        let fo = file.map(|f| FileOffset::new(f, offset));
+        let via_arc = t.flag();
+        let fo = file.map(|f| if via_arc { FileOffset::from_arc(std::sync::Arc::new(f), offset) } else { FileOffset::new(f, offset) });
+        if let Some(f) = &fo {
+            // the file-range test the constructors rely on, asked directly
+            ensure!(f.start() == offset, "FileOffset::start() = {:#x}, constructed with {:#x}", f.start(), offset);
+            let direct = vm_memory::mmap::check_file_offset(f, size);
+            let want = match offset.checked_add(size as u64) {
+                None => Some("InvalidOffsetLength"),
+                Some(end) if end > flen => Some("MappingPastEof"),
+                _ => None,
+            };
+            match (&direct, want) {
+                (Ok(()), None) => {}
+                (Err(e), Some(w)) => ensure!(ename(e) == w, "check_file_offset(offset {:#x}, size {:#x}, file of {}) failed with {}, expected {}", offset, size, flen, ename(e), w),
+                (r, w) => return Err(format!("check_file_offset(offset {:#x}, size {:#x}, file of {}) returned {:?}, expected {:?}", offset, size, flen, r.as_ref().map_err(ename), w)),
+            }
+        }
 
         // ---- decision table
         let mut must_fail: Vec<&'static str> = Vec::new();
@@ -124,6 +140,7 @@ mod std_build {
             cx.nt("map_fixed_requested");
         }
 
+        let mut hint: Option<bool> = None;
         interpose::begin();
         let r: Result<MmapRegion<()>, MmapRegionError> = match entry {
             0 => MmapRegion::build(fo.clone(), size, prot, flags),
@@ -132,8 +149,13 @@ mod std_build {
                 if let Some(f) = fo.clone() {
                     b = b.with_file_offset(f);
                 }
-                if t.flag() {
-                    b = b.with_hugetlbfs(false);
+                hint = match t.below(3) {
+                    0 => None,
+                    1 => Some(false),
+                    _ => Some(true),
+                };
+                if let Some(h) = hint {
+                    b = b.with_hugetlbfs(h);
                 }
                 b.build()
             }
@@ -163,6 +185,7 @@ mod std_build {
                 ensure!(region.prot() == eff_prot, "region.prot() = {:#x}, asked {:#x}", region.prot(), eff_prot);
                 ensure!(region.flags() == eff_flags, "region.flags() = {:#x}, asked {:#x}", region.flags(), eff_flags);
                 ensure!(region.owned(), "a region mapped by the library reports owned() == false");
+                ensure!(region.is_hugetlbfs() == hint, "is_hugetlbfs() = {:?}, the builder was told {:?}", region.is_hugetlbfs(), hint);
                 match (region.file_offset(), &fo) {
                     (None, None) => {}
                     (Some(a), Some(b)) => ensure!(a.start() == b.start() && std::sync::Arc::ptr_eq(a.arc(), b.arc()), "file_offset() reports start {:#x}, asked {:#x}", a.start(), b.start()),
